@@ -217,7 +217,7 @@ def ensure_generated():
     """The generated model files must exist for coq_makefile's dependency scan, whichever check runs first (each check
     regenerates the ones its property depends on; this only fills in missing ones, e.g. when no setup was run)."""
     gen = os.path.join(COQ, "theories", "Model")
-    missing = [n for n in ("GenTables.v", "GenLib.v", "GenTemplates.v", "GenImp.v", "GenImpMacro.v") if not os.path.exists(os.path.join(gen, n))]
+    missing = [n for n in ("GenTables.v", "GenLib.v", "GenTemplates.v", "GenImp.v", "GenImpMacro.v", "GenImpLeg.v", "GenImpBridge.v") if not os.path.exists(os.path.join(gen, n))]
     if not missing:
         return
     from . import translate, imp_translate
@@ -227,7 +227,7 @@ def ensure_generated():
         translate.write_genlib(translate.generate_lib())
     if "GenTemplates.v" in missing:
         translate.write_gentemplates(translate.generate_templates()[0])
-    if "GenImp.v" in missing or "GenImpMacro.v" in missing:
+    if any(n.startswith("GenImp") for n in missing):
         imp_translate.write(imp_translate.generate()[0])
 
 
